@@ -8,7 +8,8 @@ CONSTANTS
   Styles = {"fresh"}
   MaxPos = 0
   MaxSteps = 99
-  NullRule = TRUE
+  Forms = {"null"}
+  Carriers = {"plain"}
   Slice = 0
   NSlices = 1
   StrictMode = FALSE
